@@ -282,5 +282,8 @@ def gdefcurs_record(case, f2, tid, extra=None):
         for n in uc["mark"]:
             if n in gid:
                 user_classes.append([gid[n], 3])
+    ucar = case.get("userCarets") or {}
     return {"tid": tid, "n": len(order), "order": order, "glyphs": glyphs, "pairs": pairs, "userDefinesClasses": bool(uc),
-            "userClasses": user_classes, "userDefinesCarets": False, "userDefinesCurs": False, "F": F}
+            "userClasses": user_classes, "userDefinesCarets": bool(ucar),
+            "userCarets": [[gid[n], [list(v) for v in vals]] for n, vals in sorted(ucar.items()) if n in gid],
+            "userDefinesCurs": False, "F": F}
